@@ -1006,6 +1006,16 @@ def _iter_any_all(is_any):
     return m
 
 
+def iter_max(I, st, depth, callee, args, body, ln):
+    it = _it(I, st, args[0])
+    if it.kind == "exact" and not it.items:
+        return none()
+    e_ = join_all_(it.items)
+    if it.kind == "exact":
+        return some(e_)
+    return En({NONE: (), SOME: (e_,)})
+
+
 def iter_collect(I, st, depth, callee, args, body, ln):
     it = _it(I, st, args[0])
     if it.kind == "exact":
@@ -1068,6 +1078,60 @@ def slice_contains(I, st, depth, callee, args, body, ln):
             out.add(0)
             return D.norm_set(frozenset(out)) if 1 in out else 0
     return BOOL
+
+
+def vec_index(I, st, depth, callee, args, body, ln):
+    """<Vec<T>/[T] as Index<I>>::index for I = usize / RangeTo / RangeFrom / Range / RangeFull"""
+    r, idx = args[0], args[1]
+    v = deref(I, st, r)
+    n = _vec_len(v)
+    ga = " ".join(callee.get("ga", []))
+
+    def may_panic(cond_ok, what):
+        # cond_ok: abstract bool of the bounds condition
+        if cond_ok != 1:
+            I.ev("panic", body, ln, {"kind": "index", "callee": callee.get("def"), "msg": what,
+                                     "may": D.contains(cond_ok, 1), "len": n, "index": idx})
+        return cond_ok != 0
+    if is_scalar(idx):
+        ok = D.cmpop("Lt", idx, n) if is_scalar(n) else BOOL
+        if not may_panic(ok, "index out of bounds"):
+            return BOT
+        if isinstance(r, Ref):
+            if isinstance(idx, int) and isinstance(v, Arr):
+                return Ref(r.alloc, r.path + (("i", idx),), r.mut)
+            return Ref(r.alloc, r.path + (("s", idx),), r.mut)
+        return TOP
+    if isinstance(idx, Agg):
+        fs = idx.f
+        if "RangeTo<" in ga and len(fs) == 1:
+            ok = D.cmpop("Le", fs[0], n) if (is_scalar(fs[0]) and is_scalar(n)) else BOOL
+            if not may_panic(ok, "range end out of bounds"):
+                return BOT
+            end = fs[0]
+            if isinstance(v, Arr) and isinstance(end, int):
+                a = I.new_alloc(st, "subslice", Arr(v.e[:end]))
+                return Ref(a, (), False)
+            a = I.new_alloc(st, "subslice", ArrS(_vec_elem(v), end if is_scalar(end) else USIZE_TOP))
+            return Ref(a, (), False)
+        if "RangeFrom<" in ga and len(fs) == 1:
+            ok = D.cmpop("Le", fs[0], n) if (is_scalar(fs[0]) and is_scalar(n)) else BOOL
+            if not may_panic(ok, "range start out of bounds"):
+                return BOT
+            a = I.new_alloc(st, "subslice", ArrS(_vec_elem(v), USIZE_TOP))
+            return Ref(a, (), False)
+        if "RangeFull" in ga:
+            return r
+        if len(fs) == 2:
+            ok1 = D.cmpop("Le", fs[0], fs[1]) if (is_scalar(fs[0]) and is_scalar(fs[1])) else BOOL
+            ok2 = D.cmpop("Le", fs[1], n) if (is_scalar(fs[1]) and is_scalar(n)) else BOOL
+            ok = 1 if (ok1 == 1 and ok2 == 1) else (0 if (ok1 == 0 or ok2 == 0) else BOOL)
+            if not may_panic(ok, "range out of bounds"):
+                return BOT
+            a = I.new_alloc(st, "subslice", ArrS(_vec_elem(v), USIZE_TOP))
+            return Ref(a, (), False)
+    I.ev("panic", body, ln, {"kind": "index", "callee": callee.get("def"), "msg": "unmodelled index", "may": True})
+    return TOP
 
 
 def slice_last(I, st, depth, callee, args, body, ln):
@@ -1182,6 +1246,7 @@ def from_residual(I, st, depth, callee, args, body, ln):
 
 
 TABLE.update({
+    "core::hint::must_use": identity,
     "std::time::Instant::now": ignore_top,
     "std::time::Instant::elapsed": ignore_top,
     "core::cmp::Ord::cmp": ignore_top,
@@ -1208,6 +1273,8 @@ TABLE.update({
     "core::iter::traits::iterator::Iterator::for_each": iter_for_each,
     "core::iter::traits::iterator::Iterator::fold": iter_fold,
     "core::iter::traits::iterator::Iterator::collect": iter_collect,
+    "core::iter::traits::iterator::Iterator::max": iter_max,
+    "core::iter::traits::iterator::Iterator::min": iter_max,
     "core::iter::traits::iterator::Iterator::any": _iter_any_all(True),
     "core::iter::traits::iterator::Iterator::all": _iter_any_all(False),
     "core::iter::traits::iterator::Iterator::next": iter_next,
@@ -1260,6 +1327,10 @@ def option_eq(op):
 
 
 RES_TABLE = {
+    "<alloc::vec::Vec<T, A> as core::ops::index::Index<I>>::index": vec_index,
+    "<alloc::vec::Vec<T, A> as core::ops::index::IndexMut<I>>::index_mut": vec_index,
+    "core::slice::index::<impl core::ops::index::Index<I> for [T]>::index": vec_index,
+    "core::slice::index::<impl core::ops::index::IndexMut<I> for [T]>::index_mut": vec_index,
     "<core::option::Option<T> as core::cmp::PartialEq>::eq": option_eq("Eq"),
     "<core::option::Option<T> as core::cmp::PartialEq>::ne": option_eq("Ne"),
     "<alloc::vec::Vec<T, A> as core::ops::deref::Deref>::deref": vec_deref,
